@@ -91,6 +91,11 @@ def check_case(case, workers=None, info=None):
         table_m = [(from_json(k), [from_json(v) for v in vs]) for k, vs in case['table']]
         x = to_cat(mx)
         table = {to_cat(k): [to_cat(v) for v in vs] for k, vs in table_m}
+        if case.get('defaultdict'):
+            import collections
+            dd = collections.defaultdict(list)      # the table type depccg.allennlp.utils.read_params builds
+            dd.update(table)
+            table = dd
         tag = f'{lang} unary {canon(mx)}'
         try:
             r1 = g.apply_unary_rules(x, table)
@@ -230,7 +235,7 @@ def build_case(data, invs, seens):
         keys = list(dict.fromkeys(keys))
         table = [(k, [t.pick(pool) for _ in range(t.below(3))]) for k in keys]
         x = t.pick(keys) if t.chance(180) else t.pick(pool)
-        return {'lang': lang, 'op': 'unary', 'x': jsonable(x),
+        return {'lang': lang, 'op': 'unary', 'x': jsonable(x), 'defaultdict': t.chance(128),
                 'table': [[jsonable(k), [jsonable(v) for v in vs]] for k, vs in table], 'mode': 'unary'}
     mode = t.weighted([(4, 'varconflict'), (3, 'inventory'), (1, 'random')])
     if mode == 'inventory':
